@@ -74,6 +74,9 @@ func (c Call) String() string {
 }
 
 type Tree struct {
+	// Spare holds, for every leaf-list value handed out with spare capacity, the slice over its whole
+	// capacity: the part behind the length must stay zero (SpareWritten).
+	Spare [][]xpath.Datum
 	ByName map[string]xpath.Datum // non-nil: byname mode
 	// identity mode: nodes whose last element has one of these names have the empty string as value
 	EmptyNames map[string]bool
@@ -225,6 +228,20 @@ func (t *Tree) CallStrings() []string {
 	out := make([]string, len(t.Calls))
 	for i, c := range t.Calls {
 		out[i] = c.String()
+	}
+	return out
+}
+
+// SpareWritten reports the leaf-list values whose spare capacity (the backing array behind the
+// slice's length, which belongs to the data tree) has been written to.
+func (t *Tree) SpareWritten() []string {
+	var out []string
+	for i, full := range t.Spare {
+		for j := len(full) - 4; j < len(full); j++ {
+			if full[j] != nil {
+				out = append(out, fmt.Sprintf("leaf-list %d: slot %d behind the length holds %v", i, j, full[j]))
+			}
+		}
 	}
 	return out
 }
